@@ -76,12 +76,12 @@ func Execute(h Hooks, c Case, log *EventLog) (out Outcome) {
 		log.Add("RET hang")
 		return Outcome{Hang: true}
 	}
-	out.Stdout = string(w.buf)
-	out.Writes = w.writes
+	out.Stdout, out.Writes = w.snapshot()
 	for _, r := range readers {
-		out.Reads += r.reads
-		out.ExtraReads += r.extra
-		out.Closes = append(out.Closes, r.closes)
+		reads, extra, closes := r.counters()
+		out.Reads += reads
+		out.ExtraReads += extra
+		out.Closes = append(out.Closes, closes)
 	}
 	log.Add("RET err=%q sink=%d stdout=%d panic=%v", out.RetErr, out.Sink, len(out.Stdout), out.Panic != "")
 	return out
